@@ -200,6 +200,21 @@ def zlit(v):
     return "(%d)" % v if v < 0 else "%d" % v
 
 
+def flit(x):
+    """binary64 literal for Coq's float_scope (hex, exact)"""
+    x = float(x)
+    if x != x:
+        return "(0/0)%float"
+    if x in (float("inf"), float("-inf")):
+        return "(1/0)%float" if x > 0 else "(-1/0)%float"
+    h = x.hex()
+    return "(%s)%%float" % h
+
+
+def flist(vs):
+    return "[" + "; ".join(flit(v) for v in vs) + "]"
+
+
 def zlist(vs):
     return "[" + "; ".join(zlit(v) for v in vs) + "]"
 
@@ -208,10 +223,10 @@ def zlistlist(vss):
     return "[" + "; ".join(zlist(v) for v in vss) + "]"
 
 
-_PARSE_TOKEN = re.compile(r"\[|\]|;|-?\d+")
+_PARSE_TOKEN = re.compile(r"\[|\]|;|neg_infinity|infinity|nan|-?\d+(?:\.\d+)?(?:e[+-]?\d+)?")
 
 
-def parse_nested(text):
+def parse_nested(text, as_float=False):
     """Parse Coq's printing of a nested list of Z ("[[1; -2]; []]") into Python lists."""
     toks = _PARSE_TOKEN.findall(text)
     pos = 0
@@ -228,9 +243,17 @@ def parse_nested(text):
                 out.append(rec())
             pos += 1
             return out
-        v = int(toks[pos])
+        t = toks[pos]
         pos += 1
-        return v
+        if t == "nan":
+            return float("nan")
+        if t == "infinity":
+            return float("inf")
+        if t == "neg_infinity":
+            return float("-inf")
+        if "." in t or "e" in t or as_float:
+            return float(t)
+        return int(t)
 
     return rec()
 
@@ -284,7 +307,7 @@ def run_cases(tag, terms, requires=("Model.Run",), chunk=250, jobs=16, typ="list
         body = out.split("@@RESULT", 1)[1]
         body = body.split("=", 1)[1]
         body = body.rsplit(": list", 1)[0]
-        results.extend(parse_nested(body))
+        results.extend(parse_nested(body, as_float="float" in typ))
     return results
 
 
